@@ -173,7 +173,7 @@ def run(out, tier, rng, work):
     n = 150 if tier == 'quick' else 3000
     runs, worst = [], {}
     for k in range(n):
-        sc = tpconf.gen(rng, k, big=(k % 20 == 0))
+        sc = tpconf.gen(rng, k, big=(k % 20 == 0), sync_paced=(k % 10 == 6))
         if k % 10 == 3 and sc['dll'] == 'j1939-21' and not sc['bam']:
             # the peer answers with hold CTS frames only and then falls silent: no data may follow a hold that is not renewed
             sc['role'] = 'stack-originator'
